@@ -1,9 +1,16 @@
+"""C07 — Game and grid worlds stay physically consistent under any actions.  Driver over the per-environment sidecar contracts (contracts/<env>.py): keeps the clauses named C07.*"""
 from jxv import envdriver
+
+LEVEL = "proof"
+CONFIG_BOUND = "configurations listed in contracts/envs.py or in the contract module itself (small and adversarial: non-square, minimum sizes, >1 agents); values unbounded"
+NOT_VERIFIED = ["environments / clauses for which no C07 clause is present in the contract module (the evidence lists, per task, which clauses were discharged)",
+                "configurations outside the list"]
+ASSUMPTIONS = ["sampler contracts of jax.random (DESIGN.md section 5)", "induction over the episode from the per-step obligations (reset establishes Inv, step preserves it)"]
 
 
 def tasks(tier):
     return envdriver.tasks("C07", tier)
 
 
-LEVEL_TEXT = "wip"
-LEVEL_NOTE = "wip"
+LEVEL_TEXT = ('Proof: the physical-consistency predicate Phys(state) is an inductive invariant under ANY in-spec action (legal or not) on every step from which the episode continues; conserved quantities (boxes, mines, tile sum, cell counts, body chain) are two-state clauses, stated as local frame + balance where a global count would not discharge.')
+LEVEL_NOTE = ("per-configuration; frame+balance => global count by the finite-sum lemma (part of the verifier's logic).")
